@@ -5,7 +5,7 @@ for l in open('/verif/properties.jsonl'):
     p=json.loads(l); props[p['id']]=p
 claimed={
  'C02':("For every single-byte modification of the outer hello (all offsets, all masks) and 12 field substitutions/insertions of one honest tuple shape, the solver shows that no path reaches acceptance, and that the honest tuple is accepted; the ideal-HPKE model turns 'accepted' into 'the code passed byte-identical (key,suite,info,enc,seq,aad,payload)'.",'ideal HPKE model; structured hello shape; length-byte growth bound; ciphertext-derived-length cut (counted)'),
- 'C03':("All layouts within the bound (extension positions, marker position, referenced subsequence, padding, session id) are explored symbolically; the delivered record is compared byte for byte with a reference reconstruction; contents are symbolic.","ideal HPKE model; bounds on extension counts and lengths"),
+ 'C03':("All layouts within the bound (extension positions, marker position, referenced subsequence, padding, session id) are explored symbolically; the delivered record is compared byte for byte with a reference reconstruction; contents and the type of the inner hello's own opaque extension are symbolic.","ideal HPKE model; bounds on extension counts and lengths"),
  'C04':("Each rule violation of the statement (R1..R10, several shapes each, incl. keyless servers and retry-hello rules in 18 variants) is applied with symbolic contents to a valid hello; error class, alert bytes and version, Close and no forwarding are asserted on every path.",'ideal HPKE model; single faults; one hello shape per rule (reference-list rules: two positions of the ECH extension)'),
  'C05':("Raw and structured ClientHellos within the byte bounds: forwarded bytes equal the client's bytes, valid hellos are not refused, ServerName/ALPN equal a reference extraction and what crypto/tls's own server extracts from the forwarded bytes; later records after a non-accepted ECH pass untouched.","reference recogniser in the harness and crypto/tls's server (interpreted from SSA, real natively) are the oracles; raw bounds are small (x13 paths per 4 free bytes)"),
  'C06':("All histories of 3 records over 10 event kinds, record types 20/21/23/24 and 6 (quick) / 13 (thorough) second-hello variants incl. a third hello are explored and compared step by step with a reference monitor of the statement; two connections sharing keys are explored for non-interference.",'ideal HPKE model; history length bound; one record per call'),
